@@ -254,9 +254,12 @@ ObsOf(h, b, c, extra) ==
    mon |-> Mon(h, b, c) \cup extra]
 SetObs(extra) == obs' = ObsOf(hist', [ob |-> ob', cn |-> cn', tmp |-> tmp', sps |-> sps'], cm', extra)
 
-\* a clause of C11 / C12 does not hold in this state (a deviation of the code showed): the run ends here - the
-\* violation is what there is to see, and what the code does with a dangling or emptied object is not modelled
-Live == obs.mon = {}
+\* A clause of C11 / C12 does not hold in this state (a deviation of the code showed): the run ends here - the
+\* violation is what there is to see, and what the code does with a dangling oid is not modelled.  An object that
+\* lost its state is simply not used again (the run goes on) unless a state in memory still refers to it.
+LostObj(o) == o \notin Blobs /\ ~ob[o].own /\ ob[o].flag = "ghost"
+Live == /\ \A m \in obs.mon : m.clause = "state-lost"
+        /\ \A o \in All : LostObj(o) => \A p \in All : o \notin Range(ob[p].st.kids)
 App == cm.pc = "idle" /\ cn.opened /\ Live
 Act == App /\ cm.n < (IF NBy("c") < MaxCommit THEN MaxAct ELSE MaxTail) /\ cm' = [cm EXCEPT !.n = @ + 1]
 
@@ -282,7 +285,7 @@ Loaded(b, o) == IF b.ob[o].flag = "ghost"
 Register(b, o) == IF o \in b.cn.added THEN b
                   ELSE [b EXCEPT !.cn.joined = TRUE, !.cn.reg = Append(@, o)]
 Usable(o) == (~ob[o].own /\ ob[o].flag # "ghost" /\ ob[o].st # Gone) \/ (ob[o].own /\ (ob[o].flag # "ghost" \/ Loadable(o)))
-Fresh(o) == o \notin Blobs \/ ob[o].own \/ (ob[o].flag # "ghost" /\ ob[o].st # Gone)      \* not a blob that was disowned
+Fresh(o) == ob[o].own \/ (ob[o].flag # "ghost" /\ ob[o].st # Gone)      \* not an object that lost its state or data
 \* the application assigns a new state to o (ghosts are activated by the access)
 Touch(o, f(_)) ==
   IF ~ob[o].own THEN Set([B EXCEPT !.ob[o].st = f(@)])
